@@ -126,15 +126,21 @@ impl Primes {
                         ps.push(p as u32);
                     }
                 }
+                let mut refused: Vec<u32> = vec![];
                 for p in ps {
                     if let Some(m) = m64_of(p) {
                         let tz = std::cmp::max(m.trailing_zeros(), (m - 1).trailing_zeros());
                         cand.push((tz, p));
+                    } else if refused.len() < 8 && guard(|| Dividers::new(p)).is_err() {
+                        // the constructor panicked on a prime below 2^30: keep it, its events will show the outcome
+                        refused.push(p);
                     }
                 }
                 cand.sort();
                 cand.reverse();
-                cand.iter().take(if self.thorough { 40 } else { 12 }).map(|x| x.1).collect()
+                let mut v: Vec<u32> = cand.iter().take(if self.thorough { 40 } else { 12 }).map(|x| x.1).collect();
+                v.extend(refused);
+                v
             }
             "fermat" => {
                 let mut v = vec![257u32, 641, 65537, 274177, 6700417, 8191, 131071, 524287, 178481, 2796203, 715827883];
@@ -175,7 +181,7 @@ impl Primes {
                 v
             }
             "rand" => {
-                let per = if self.thorough { 6 } else { 1 };
+                let per = if self.thorough { 20 } else { 2 };
                 let mut v = vec![];
                 for b in 9..=30u32 {
                     for _ in 0..per {
